@@ -287,6 +287,29 @@ def run(ctx):
         for k, v in ref.items():
             if k in got and got[k] != v:
                 ob5.refute("burst-length:%s" % k, "burst length of %s is %s in common.burst_lengths, JEDEC value %d" % (k, got[k], v), None)
+    # ---- controller: which bank machine serves which interface bank -----------------------------------------------
+    ob7 = ctx.ob("C06.7", "the bank machine connected to interface bank k (k = rank*nbanks + bank, the index the crossbar decodes from the address) is built with n = k, "
+                          "the value it drives on cmd.ba: otherwise the rank bits never reach the chip-select decode and two addresses share one DRAM location", 4)
+    import re as _re
+    ctl2 = elab(ctx, "litedram.core.controller", "LiteDRAMController", overrides={"phy_settings.nranks": Const(2), "geom_settings.bankbits": Const(1)},
+                opaque=("Multiplexer", "Refresher", "_AddressSlicer", "tXXDController", "tFAWController"))
+    bms2 = {str(o): o for o in ctl2.instances_of("BankMachine")}
+    served = {}
+    for l in ctl2.leaves:
+        if l.kind == "connect" and l.inst == "":
+            mo = _re.match(r"^interface\.bank(\d+)$", key(l.value))
+            tgt = key(l.target)
+            if mo and tgt.endswith(".req") and tgt[:-4] in bms2:
+                served[int(mo.group(1))] = bms2[tgt[:-4]]
+    if ob7.need(len(served) == 4 and len(bms2) == 4, "controller (2 ranks x 2 banks): expected 4 bank machines each connected to one interface bank, found %d / %d" %
+                (len(bms2), len(served))):
+        for k_, o in sorted(served.items()):
+            n_ = o.kwargs.get("n", o.args[0] if o.args else None)
+            ob7.instance("interface.bank%d" % k_, {"bank machine": str(o), "n": key(n_) if n_ is not None else None})
+            if not (isinstance(n_, Const) and n_.v == k_):
+                ob7.refute("bank-index:%d" % k_, "interface bank %d (rank %d, bank %d) is served by a bank machine built with n = %s: its commands carry bank address %s, so the "
+                           "rank decode / the DRAM bank differ from what the port address says" % (k_, k_ // 2, k_ % 2, key(n_) if n_ is not None else None,
+                                                                                                key(n_) if n_ is not None else None), o.loc)
     ob6 = ctx.ob("C06.6", "the rank part of the address selects the chip select on the bus: a command that issues on a phase selects exactly the rank its bank address "
                           "names, and the DFI bank field carries the remaining bits (shared with C02.6, truth table of the extracted steerer)", 2)
     from ..report import Ctx as _Ctx
